@@ -6,6 +6,10 @@ import CCVerif.Lemmas.JsonOssLoad
 import CCVerif.Lemmas.JsonOssGraph
 import CCVerif.Lemmas.JsonOssReach
 import CCVerif.Lemmas.JsonOssOrder
+import CCVerif.Lemmas.JsonOssRows
+import CCVerif.Lemmas.JsonOssRowsReach
+import CCVerif.Lemmas.JsonOssLoadPict
+import CCVerif.Lemmas.JsonOssLoadGraph
 /-!
 # C10 — saving and loading through JSON is lossless and stable
 
@@ -831,5 +835,191 @@ example : OssWfOk diamondReloaded ∧ ¬ RowsCanon diamondReloaded.rows ∧
       simp only [diamondReloaded, diamondR, diamond, List.map_cons, List.map_nil, List.mem_cons, List.not_mem_nil, or_false] at hp
       rcases hp with rfl | rfl | rfl | rfl | rfl <;> rfl, diamondR_maps p hp⟩
   exact ⟨h, rowsCanon_not_invariant.2.2, oss_stable_ordered _ _ h⟩
+
+end CCVerif.JsonOss
+
+
+/-! ## the ORDER of `connections` for the documents the library itself wrote
+
+`Lemmas/JsonOssRows.lean`, `Lemmas/JsonOssRowsReach.lean`. `oss_connection_order_counterexample` needs a reload of
+a document whose `connections` array was rearranged by hand. For the histories whose reloads load the array AS THE
+WRITER EMITTED IT (`writerReloads`, a decidable predicate on histories; the order of `items`, a hash container,
+stays free) `RowsOk` is an invariant — `AddItem` appends the new operation after its operands, `Erase` removes a
+row nobody mentions, and `LoadParent` run over the written array keeps the children in their order and puts every
+new parent behind its first child — so `oss_roundtrip_reachable_statement` and save ∘ load ∘ save = save hold for
+them WITH the order of `connections`. -/
+namespace CCVerif.JsonOss
+open CCVerif.Json
+open CCVerif.Oss (Pid Graph Struct St Op Variant Oracle StructInv run runHist admissibleRun exampleOracle)
+
+/-- **oss_wf_ok_reachable**: every content the writer reads from a schema reached by a history whose reloads
+leave `connections` as written satisfies `OssWfOk` — in particular `RowsOk`: no pictogram with connections is
+mentioned as a parent in an earlier row of the graph facet. (Without `writerReloads`: false,
+`oss_connection_order_counterexample`.) -/
+theorem oss_wf_ok_reachable (v : Variant) (o : Oracle) (ops : List Op) (st : St)
+    (hrun : run v o ops = some st) (hw : writerReloads v o ops = true) (c : Oss) (hc : Represents st.s c)
+    (hmaps : ∀ p ∈ c.items, ∀ x, p.op = some x → OpWf x) : OssWfOk c := by
+  obtain ⟨h1, h2, h3⟩ := represents_codec (CCVerif.Oss.structInv_history v o ops st hrun) hc hmaps
+  exact ⟨h1, h2, h3, by rw [hc.rows]; exact rowsOk_history v o ops st hrun hw⟩
+
+/-- **oss_roundtrip_reachable_writer**: `oss_roundtrip_reachable_statement` with `writerReloads` in the place of
+`admissibleRun` — for EVERY state reached from the empty schema by insertions, erasures, source events,
+executions and reloads of the documents as written (any variant, any oracle), and every content `c` the writer
+can read from it: the written document loads; header, the list of pictograms with every stored field, the
+`connections` array IN ORDER and the parents of every pictogram in operand order are reproduced; the loaded key
+tables satisfy the structural invariant of C19. -/
+theorem oss_roundtrip_reachable_writer (v : Variant) (o : Oracle) (ops : List Op) (st : St)
+    (hrun : run v o ops = some st) (hw : writerReloads v o ops = true) (c : Oss) (hc : Represents st.s c)
+    (hmaps : ∀ p ∈ c.items, ∀ x, p.op = some x → OpWf x) (env : Env) :
+    ∃ c', ossFromJson env (ossToJson c) = .ok c' ∧ c'.title = c.title ∧ c'.comment = c.comment ∧
+      c'.domain = c.domain ∧ c'.items = c.items ∧ edgeList c'.rows = edgeList c.rows ∧
+      (∀ p, rowOf c'.rows p = rowOf c.rows p) ∧ StructInv (toStruct c') := by
+  obtain ⟨c', h1, h2, h3, h4, h5, _, h7, h8⟩ := oss_roundtrip_reachable_partial v o ops st hrun c hc hmaps env
+  obtain ⟨c'', g1, _, _, _, _, g6, _⟩ := oss_roundtrip_ordered env c (oss_wf_ok_reachable v o ops st hrun hw c hc hmaps)
+  rw [h1] at g1
+  injection g1 with g1
+  subst g1
+  exact ⟨c', h1, h2, h3, h4, h5, g6, h7, h8⟩
+
+/-- **oss_stable_reachable**: save ∘ load ∘ save = save, as JSON trees, the order of `connections` included,
+for every schema of `oss_roundtrip_reachable_writer` (hash-container order of `items` / `layout` / equation and
+translation maps as the content lists it). -/
+theorem oss_stable_reachable (v : Variant) (o : Oracle) (ops : List Op) (st : St)
+    (hrun : run v o ops = some st) (hw : writerReloads v o ops = true) (c : Oss) (hc : Represents st.s c)
+    (hmaps : ∀ p ∈ c.items, ∀ x, p.op = some x → OpWf x) (env : Env) :
+    (ossFromJson env (ossToJson c)).map ossToJson = .ok (ossToJson c) :=
+  oss_stable_ordered env c (oss_wf_ok_reachable v o ops st hrun hw c hc hmaps)
+
+/-- the class is closed under "reload what was written" (any order of `items`): every generation of
+save → load is covered by `oss_stable_reachable`; and the written array is `EdgeList` of the C19 model's facet,
+so these reloads are the steps `Op.reload items st.s.graph.edgeList` -/
+theorem writerReloads_reload (v : Variant) (o : Oracle) (ops : List Op) (st : St)
+    (hrun : run v o ops = some st) (hw : writerReloads v o ops = true) (items : List Pid) :
+    writerReloads v o (.reload items st.s.graph.edgeList :: ops) = true := by
+  simp only [writerReloads, hw, hrun, Bool.true_and, beq_iff_eq]
+  exact (writtenEdges_eq v o ops st hrun).symm
+
+/-- the diamond built through the API, saved and loaded as written -/
+def histDiamondReload : List Op := histDiamond ++ [.reload [1, 2, 4, 3, 5] [(3, 1), (3, 2), (5, 3), (5, 4)]]
+
+/-- insert, insert, operation, erase, reload — and on: an operation over the reloaded schema, an execution, a
+second reload -/
+def histErase : List Op :=
+  [.insertBase 1, .insertBase 2, .insertOperation 1 2 3, .insertBase 4, .insertOperation 3 4 5, .erase 5,
+   .reload [3, 2, 1, 4] [(3, 1), (3, 2)], .insertOperation 3 4 6, .executeAll,
+   .reload [6, 4, 3, 2, 1] [(3, 1), (3, 2), (6, 3), (6, 4)]]
+
+/-- what the writer reads from the schema after `histErase` -/
+def eraseDoc : Oss :=
+  { title := "e"
+    items := [ { uid := 1, pos := ⟨0, 0⟩ }, { uid := 2, pos := ⟨0, 1⟩ },
+               { uid := 3, pos := ⟨1, 0⟩, op := some { type := .synt, options := some [(7, 8, {})] } },
+               { uid := 4, pos := ⟨0, 2⟩ }, { uid := 6, pos := ⟨2, 0⟩, op := some { type := .merge, outdated := true } } ]
+    rows := [(3, [1, 2]), (1, []), (2, []), (6, [3, 4]), (4, [])] }
+
+private theorem eraseDoc_maps : ∀ p ∈ eraseDoc.items, ∀ x, p.op = some x → OpWf x := by
+  intro p hp
+  simp only [eraseDoc, List.mem_cons, List.not_mem_nil, or_false] at hp
+  rcases hp with rfl | rfl | rfl | rfl | rfl <;> intro x hx <;> cases hx <;>
+    refine ⟨fun t ht => ?_, fun ts ht => ?_⟩ <;> cases ht <;> decide
+
+/-- non-vacuity of `oss_roundtrip_reachable_writer` / `oss_stable_reachable`: the reloaded diamond (child-first
+rows, `RowsCanon` fails) is reached by a history in the class -/
+example : ∃ st, run Variant.repaired exampleOracle histDiamondReload.reverse = some st ∧
+    writerReloads Variant.repaired exampleOracle histDiamondReload.reverse = true ∧
+    Represents st.s diamondReloaded ∧ ¬ RowsCanon diamondReloaded.rows ∧
+    (ossFromJson ⟨fun _ => 0⟩ (ossToJson diamondReloaded)).map ossToJson = .ok (ossToJson diamondReloaded) := by
+  obtain ⟨st, hr, hc⟩ := reached_represents (ops := histDiamondReload) (c := diamondReloaded) (by decide +kernel)
+  have hw : writerReloads Variant.repaired exampleOracle histDiamondReload.reverse = true := by decide +kernel
+  exact ⟨st, hr, hw, hc, rowsCanon_not_invariant.2.2,
+    oss_stable_reachable _ _ _ st hr hw diamondReloaded hc diamondR_maps _⟩
+
+/-- … and the schema after insert, insert, operation, erase, reload, operation, execution, reload: the loaded
+connections are the written ones, in order -/
+example : ∃ st, run Variant.repaired exampleOracle histErase.reverse = some st ∧
+    writerReloads Variant.repaired exampleOracle histErase.reverse = true ∧ Represents st.s eraseDoc ∧
+    (ossFromJson ⟨fun _ => 0⟩ (ossToJson eraseDoc)).map ossToJson = .ok (ossToJson eraseDoc) ∧
+    ∃ c', ossFromJson ⟨fun _ => 0⟩ (ossToJson eraseDoc) = .ok c' ∧
+      edgeList c'.rows = [(3, 1), (3, 2), (6, 3), (6, 4)] ∧ StructInv (toStruct c') := by
+  obtain ⟨st, hr, hc⟩ := reached_represents (ops := histErase) (c := eraseDoc) (by decide +kernel)
+  have hw : writerReloads Variant.repaired exampleOracle histErase.reverse = true := by decide +kernel
+  obtain ⟨c', h1, _, _, _, _, h6, _, h8⟩ := oss_roundtrip_reachable_writer _ _ _ st hr hw eraseDoc hc eraseDoc_maps ⟨fun _ => 0⟩
+  exact ⟨st, hr, hw, hc, oss_stable_reachable _ _ _ st hr hw eraseDoc hc eraseDoc_maps _, c', h1, by rw [h6]; decide, h8⟩
+
+/-- the hypothesis `writerReloads` is what `histOrder` (the counterexample) lacks -/
+example : writerReloads Variant.repaired exampleOracle histOrder.reverse = false := by decide +kernel
+
+/-- **oss_reload_is_c19_reload** (the `LoadPict` half of the projection; with `oss_graph_is_c19_loadParent` the
+whole loader): for every reachable schema `st`, every content `c` the writer reads from it, the document with its
+`items` in ANY order, any `layout` and ANY `connections` array `es` for which the C19 machine's step
+`Op.reload (items'.map uid) es` is defined (a rearrangement of the written array): the document loads, and the key
+tables of the loaded content — `storage`, `idGen`, the graph facet with its index bookkeeping, the grid, the keys
+of the source and operation facets, each in the order the loader fills them — are EXACTLY the structural state of
+the C19 machine after that step (`Struct.loadPict` per item, `Graph.loadParent` per connection). -/
+theorem oss_reload_is_c19_reload (v : Variant) (o : Oracle) (ops : List Op) (st st' : St)
+    (hrun : run v o ops = some st) (c : Oss) (hc : Represents st.s c)
+    (hmaps : ∀ p ∈ c.items, ∀ x, p.op = some x → OpWf x) (env : Env)
+    (items' : List Pict) (hitems : items'.Perm c.items) (layout : Json) (es : List (Pid × Pid))
+    (hrun' : run v o (.reload (items'.map (·.uid)) es :: ops) = some st') :
+    ∃ c', ossFromJson env (ossDoc c.title c.comment c.domain items' layout es) = .ok c' ∧ c'.items = items' ∧
+      c'.rows = loadEdges [] es ∧ toStruct c' = st'.s := by
+  simp only [run, hrun, Option.bind_some, Option.map_eq_some_iff] at hrun'
+  obtain ⟨r, hr, he⟩ := hrun'
+  subst he
+  exact reload_toStruct (b := r.2) (CCVerif.Oss.structInv_history v o ops st hrun) hc hmaps env items' hitems layout es hr
+
+/-- non-vacuity: the diamond, its connections child-first; the loaded key tables are the state of the C19 machine
+after the reload, e.g. the graph facet indexes the pictograms as 5, 3, 1, 4, 2 -/
+example : ∃ st', run Variant.repaired exampleOracle
+      (.reload (diamondR.items.map (·.uid)) [(5, 3), (3, 1), (5, 4), (3, 2)] :: histDiamond.reverse) = some st' ∧
+    ∃ c', ossFromJson ⟨fun _ => 0⟩ (ossDoc "diamond" "c" "dom" diamondR.items (.arr []) [(5, 3), (3, 1), (5, 4), (3, 2)]) = .ok c' ∧
+      toStruct c' = st'.s ∧ st'.s.graph.items = [5, 3, 1, 4, 2] ∧ st'.s.storage = [5, 3, 4, 2, 1] := by
+  obtain ⟨st, hr, hc⟩ := reached_represents (ops := histDiamond) (c := diamondR) (by decide +kernel)
+  cases hr' : run Variant.repaired exampleOracle
+      (.reload (diamondR.items.map (·.uid)) [(5, 3), (3, 1), (5, 4), (3, 2)] :: histDiamond.reverse) with
+  | none =>
+    have : (run Variant.repaired exampleOracle
+      (.reload (diamondR.items.map (·.uid)) [(5, 3), (3, 1), (5, 4), (3, 2)] :: histDiamond.reverse)).isSome = true := by
+      decide +kernel
+    rw [hr'] at this; cases this
+  | some st' =>
+    obtain ⟨c', h1, h2, h3, h4⟩ := oss_reload_is_c19_reload _ _ _ st st' hr diamondR hc diamondR_maps ⟨fun _ => 0⟩
+      diamondR.items (List.Perm.refl _) (.arr []) [(5, 3), (3, 1), (5, 4), (3, 2)] hr'
+    refine ⟨st', rfl, c', h1, h4, ?_, ?_⟩
+    · rw [← h4]
+      show keysOf c'.rows = _
+      rw [h3]; decide
+    · rw [← h4]
+      show (c'.items.map (·.uid)).reverse = _
+      rw [h2]; decide
+
+/-- **oss_load_graph_partial**: the graph half of `oss_load_wf_statement` that holds for EVERY accepted document,
+whatever its `connections` array (hand-written, repeated, reversed, dangling): in the loaded graph facet the
+items are distinct, every mentioned pictogram is an item, no row repeats a parent, no pictogram is its own
+parent, and no two pictograms are each other's parent. (What `LoadParent` does NOT exclude — cycles longer than
+two, pictograms that are not in `items`, the number of parents — is really accepted:
+`oss_load_wf_counterexample`.) -/
+theorem oss_load_graph_partial (env : Env) (j : Json) (c : Oss) (h : ossFromJson env j = .ok c) :
+    (keysOf c.rows).Nodup ∧ Closed c.rows ∧
+    ∀ p, (rowOf c.rows p).Nodup ∧ p ∉ rowOf c.rows p ∧ ∀ q ∈ rowOf c.rows p, p ∉ rowOf c.rows q := by
+  obtain ⟨es, he⟩ := ossFromJson_rows env j c h
+  rw [he]
+  exact ⟨(loadEdges_graphRows es).1.1, (loadEdges_graphRows es).1.2, (loadEdges_graphRows es).2⟩
+
+/-- non-vacuity: a self loop, a repeated and a reversed connection are dropped, the 3-cycle is accepted; and
+`cycleDoc` (accepted, `structOkB = false`) meets the hypothesis -/
+example : loadEdges [] [(1, 2), (2, 1), (1, 1), (1, 2), (2, 3), (3, 1)] = [(1, [2]), (2, [3]), (3, [1])] := by decide
+example : ∃ c, ossFromJson ⟨fun _ => 0⟩ cycleDoc = .ok c ∧ structOkB c = false ∧ (keysOf c.rows).Nodup ∧
+    ∀ p, (rowOf c.rows p).Nodup ∧ p ∉ rowOf c.rows p := by
+  cases hc : ossFromJson ⟨fun _ => 0⟩ cycleDoc with
+  | error e =>
+    have := oss_load_wf_counterexample.2.1
+    rw [hc] at this; simp [Except.map] at this
+  | ok c =>
+    have h2 := oss_load_wf_counterexample.2.1
+    rw [hc] at h2
+    have hb : structOkB c = false := by simpa [Except.map] using h2
+    obtain ⟨h1, _, h3⟩ := oss_load_graph_partial _ _ c hc
+    exact ⟨c, rfl, hb, h1, fun p => ⟨(h3 p).1, (h3 p).2.1⟩⟩
 
 end CCVerif.JsonOss
